@@ -6,11 +6,12 @@ UNITS = list(tu.UNITS)
 # the initial state of the map: a new tree is empty and counts 0 (unit shared with C18, where its allocation-failure exit matters)
 UNITS.append(dict(id="tree_new", harness="../C18/misc2.c", entry="h_tree_new", sources=["ptree.c", "ptree-bst.c", "ptree-rb.c", "ptree-avl.c"], enforce=None, replace=[], defines=["UNIT_TREE_NEW"], canaries=2, timeout=300,
                   functions=["p_tree_new_full", "p_tree_free"], cbmc_flags=["--unwind", "4", "--unwinding-assertions", "--object-bits", "10"]))
+UNITS += tu.ROT_UNITS
 REQUIRE_CONFIGURED = ["ptree.c", "ptree-bst.c", "ptree-rb.c", "ptree-avl.c"]
-TECHNIQUE = "BOUNDED stand-in (not an unbounded proof): CBMC on the real ptree*.c from every well-formed tree up to a height bound (BST/ptree.c: 3 quick, 4 thorough; RB/AVL: 2 quick, 3 thorough), one symbolic operation, full re-validation; unwinding assertions on"
+TECHNIQUE = "BOUNDED stand-in (not an unbounded proof): CBMC on the real ptree*.c from every well-formed tree up to a height bound (BST/ptree.c: 3 quick, 4 thorough; RB/AVL: 2 quick, 3 thorough), one symbolic operation, full re-validation; unwinding assertions on.  UNBOUNDED part: the six rotation functions (loop-free) on a symbolic node window with subtrees of any size and ghost height (units rot_*)"
 LEVEL_TEXT = ("C12 focus: sorted-map view (membership/value of a ghost probe key, count, ascending traversal, early stop leaves the tree unchanged, clear). Heap-shape induction is not expressible in CBMC contracts (no inductive heap predicates), so the per-operation step is checked from EVERY well-formed tree "
               "within the height bound (symbolic shape, keys, values, colours/balance factors, parent links, with and without notifiers, allocation failure included) rather than for all sizes: "
               "one symbolic insert/remove/lookup/foreach(any stop point)/clear on the real code, then the whole result is re-validated. Since every reachable tree is well-formed, "
-              "this is invariant preservation for all operation sequences whose trees stay within the bound. Counted as bounded model checking, never as proved.")
+              "this is invariant preservation for all operation sequences whose trees stay within the bound. Counted as bounded model checking, never as proved. Exception, unbounded: units rot_* verify pp_tree_rb_rotate_left/right and pp_tree_avl_rotate_left/right/left_right/right_left for every window (hanging subtrees of any size with ghost heights, any node above): exact post-shape = in-order sequence preserved, all parent links, root pointer / child slot above, frame; AVL: stored balance factors equal the real height differences afterwards, under the preconditions of the call sites.")
 LEVEL_NOTE = ("Bounded: tree height (see bound per unit in the evidence). Keys are integers under the identity order (every finite total order embeds); comparator user data is passed through "
               "but not interpreted. The logarithmic-depth corollaries of the AVL/red-black invariants are textbook mathematics, not machine-checked. Trusted: allocator model.")
